@@ -1,7 +1,7 @@
 (* Extraction of the executable models. ExtrOcamlBasic only: bool, option, unit, list, prod,
    sumbool, comparison map to OCaml's; N, positive, nat stay extracted inductives. No Extract Constant. *)
-Require Import Tokenizer Symbols Lines Inst.
+Require Import Tokenizer Symbols Lines Inst CodeTags.
 Require Extraction.
 Require Import ExtrOcamlBasic.
 Extraction Language OCaml.
-Extraction "model.ml" vsg_create vsg_read get_lines fix_blank_lines fix_trailing_whitespace kind_code kind_of_code mk.
+Extraction "model.ml" vsg_create vsg_read get_lines fix_blank_lines fix_trailing_whitespace kind_code kind_of_code mk stamp has_code_tag violation_suppressed ct.
